@@ -63,7 +63,7 @@ T1=$(date +%s.%N)
 python3 - "$ROOT" "$BASE" "$N" "$SCEN" "$exec_n" "$viol" "$failures" "$T0" "$T1" <<'PY'
 import json,sys
 root,base,n,scen,ex,viol,fails,t0,t1=sys.argv[1],int(sys.argv[2]),int(sys.argv[3]),sys.argv[4].split(),int(sys.argv[5]),int(sys.argv[6]),json.loads(sys.argv[7]),float(sys.argv[8]),float(sys.argv[9])
-json.dump({"executions":ex,"miri_seeds":f"{base}..{base+n}","seeds_per_scenario":n,"scenarios":{"A":"3 threads call synthesize on one Arc<Engine>","B":"2 threads step generators made from the shared engine while a 3rd clones, mutates and drops engines","C":"a generator is moved to another thread and finished after its engine was dropped; a second engine runs beside it","D":"like A with the postfilter on (beta 0.4)"},"scenarios_run":scen,
+json.dump({"executions":ex,"miri_seeds":f"{base}..{base+n}","seeds_per_scenario":n,"scenarios":{"A":"3 threads call synthesize on one Arc<Engine>","B":"2 threads step generators made from the shared engine while a 3rd clones, mutates and drops engines","C":"a generator is moved to another thread and finished after its engine was dropped; a second engine runs beside it","D":"2 threads, 1-label utterance, postfilter on (beta 0.4)","E":"10 threads call synthesize on one Arc<Engine> (GV streams)"},"scenarios_run":scen,
  "flags":"-Zmiri-many-seeds -Zmiri-preemption-rate=0.1 -Zmiri-deterministic-floats","detects":"data races, UB, and bit-inequality with the sequential reference under instruction-level pre-emption","violations":viol,"failures":fails,"wall_s":round(t1-t0,3)},
  open(root+'/evidence/parts/C03.l2b.json','w'),indent=1)
 PY
